@@ -27,7 +27,7 @@ Definition vbk_max_difficulty : Z := 2 ^ 192 - 1.
     truncated into uint32 variables exactly as the C++ does. *)
 Definition vbk_plausibility (forkHeight startTime blockTime : Z) (enabled : bool) (height timestamp : Z) : Z :=
   if height <? forkHeight then 1
-  else if 4096 <? u32 (Z.quot height 8000) then 2
+  else if 4096 <=? u32 (Z.quot height 8000) then 2
   else if negb enabled then 0
   else if timestamp <? startTime then 3
   else
